@@ -27,6 +27,7 @@ pub fn dispatch(cmd: &str, c: &Value) -> Value {
         "queue_conc" => queue_conc(c),
         "catalogue" => catalogue(c),
         "details_batches" => details_batches(c),
+        "pipeline" => pipeline(c),
         "varint" => varint(c),
         "collvarint" => collvarint(c),
         "stream_names" => stream_names(c),
@@ -567,6 +568,82 @@ pub fn details_batches(c: &Value) -> Value {
         streams.push(vals);
     }
     json!({ "batch1": {"counts": streams[0], "group": streams[1], "in_group": streams[2], "len": streams[3], "rev": streams[4]} })
+}
+
+// ---------------------------------------------------------------- whole pipeline (C01/C04/C05/C15 pipeline views)
+/// Run the real StreamingQueueCompressor on the given samples `runs` times with `threads` workers and once with one worker; every
+/// run must terminate (watchdog), extract to the input, and all archives must be byte-identical. With `fault_at` the output goes
+/// through a file-size limit in a child process instead (see native_cli.py), not here.
+pub fn pipeline(c: &Value) -> Value {
+    use ragc_core::{Decompressor, DecompressorConfig, StreamingQueueCompressor, StreamingQueueConfig};
+    use std::sync::mpsc;
+    let threads = c["threads"].as_u64().unwrap() as usize;
+    let k = c["k"].as_u64().unwrap() as usize;
+    let driver = c["driver"].as_str().unwrap_or("api").to_string();
+    let qcap = c["qcap"].as_u64().unwrap_or(1 << 20) as usize;
+    let runs = c["runs"].as_u64().unwrap_or(20) as usize;
+    let samples: Vec<(String, Vec<(String, Vec<u8>)>)> = c["samples"].as_array().unwrap().iter().map(|s| {
+        (s[0].as_str().unwrap().to_string(), s[1].as_array().unwrap().iter().map(|ct| (ct[0].as_str().unwrap().to_string(), bytes(&ct[1]))).collect())
+    }).collect();
+    let splitters: ahash::AHashSet<u64> = c["splitters"].as_array().unwrap().iter().map(u64_of).collect();
+    let cfgv = c["cfg"].clone();
+    let mk_cfg = move |t: usize| {
+        let mut cfg = StreamingQueueConfig { k, segment_size: 4, min_match_len: 4, num_threads: t, queue_capacity: qcap, verbosity: 0, ..StreamingQueueConfig::default() };
+        if driver_is_single(&cfgv) { cfg.concatenated_genomes = true; }
+        if let Some(v) = cfgv.get("pack_size").and_then(|x| x.as_u64()) { cfg.pack_size = v as usize; }
+        if let Some(v) = cfgv.get("segment_size").and_then(|x| x.as_u64()) { cfg.segment_size = v as usize; }
+        if let Some(v) = cfgv.get("min_match_len").and_then(|x| x.as_u64()) { cfg.min_match_len = v as usize; }
+        if let Some(v) = cfgv.get("concatenated_genomes").and_then(|x| x.as_bool()) { cfg.concatenated_genomes = v; }
+        cfg
+    };
+    fn driver_is_single(cfgv: &Value) -> bool { cfgv.get("__single").and_then(|x| x.as_bool()).unwrap_or(false) }
+    let one = |t: usize, run: usize| -> Result<Vec<u8>, String> {
+        let path = tmp_path(&format!("pipe{}-{}", t, run));
+        let (tx, rx) = mpsc::channel();
+        let (samples2, splitters2, path2, driver2) = (samples.clone(), splitters.clone(), path.clone(), driver.clone());
+        let mut cfg = mk_cfg(t);
+        if driver == "single" { cfg.concatenated_genomes = true; }
+        std::thread::spawn(move || {
+            let r = (|| -> anyhow::Result<()> {
+                let mut comp = StreamingQueueCompressor::with_splitters(&path2, cfg, splitters2)?;
+                for (si, (sn, contigs)) in samples2.iter().enumerate() {
+                    if si == 1 && driver2 == "single" { comp.drain()?; }
+                    for (cn, d) in contigs { comp.push(sn.clone(), cn.clone(), d.clone())?; }
+                    if si == 0 && driver2 == "multi" { comp.drain()?; comp.sync_and_flush("AAA#0_REF")?; }
+                }
+                comp.finalize()
+            })();
+            let _ = tx.send(r.map_err(|e| format!("{:#}", e)));
+        });
+        match rx.recv_timeout(std::time::Duration::from_secs(90)) {
+            Err(_) => return Err("timeout".into()),
+            Ok(Err(e)) => return Err(format!("create failed: {}", e)),
+            Ok(Ok(())) => {}
+        }
+        let data = std::fs::read(&path).map_err(|e| e.to_string())?;
+        let mut dec = Decompressor::open(path.to_str().unwrap(), DecompressorConfig { verbosity: 0 }).map_err(|e| format!("open failed: {:#}", e))?;
+        let names = dec.list_samples();
+        let mut exp: Vec<String> = vec![];
+        for (sn, _) in samples.iter() { if !exp.contains(sn) { exp.push(sn.clone()); } }
+        if names != exp { let _ = std::fs::remove_file(&path); return Err(format!("sample list {:?} != {:?}", names, exp)); }
+        for sn in exp.iter() {
+            let got = dec.get_sample(sn).map_err(|e| format!("extract failed: {:#}", e))?;
+            let want: Vec<(String, Vec<u8>)> = samples.iter().filter(|(s, _)| s == sn).flat_map(|(_, cs)| cs.clone()).collect();
+            if got != want { let _ = std::fs::remove_file(&path); return Err(format!("round trip differs for {}", sn)); }
+        }
+        let _ = std::fs::remove_file(&path);
+        Ok(data)
+    };
+    let reference = match one(1, 0) { Ok(d) => d, Err(e) => return json!({"ok": false, "why": format!("1 worker: {}", e), "timeout": e == "timeout"}) };
+    let mut distinct: Vec<Vec<u8>> = vec![reference.clone()];
+    for r in 0..runs {
+        match one(threads, r + 1) {
+            Ok(d) => { if !distinct.contains(&d) { distinct.push(d); } }
+            Err(e) => return json!({"ok": false, "why": format!("{} workers, run {}: {}", threads, r, e), "timeout": e == "timeout"}),
+        }
+    }
+    json!({ "ok": distinct.len() == 1, "distinct_archives": distinct.len(), "sizes": distinct.iter().map(|d| d.len()).collect::<Vec<_>>(),
+            "why": if distinct.len() == 1 { String::new() } else { format!("{} distinct archives over {} runs with {} worker(s) + 1 run with one worker", distinct.len(), runs, threads) } })
 }
 
 // ---------------------------------------------------------------- C06 / C05 bounded priority queue
